@@ -368,6 +368,26 @@ Definition backup_ok (opens_partial : bool) (s : cslot) : bool :=
 Definition restored_content (garbage : N) (s : cslot) : N :=
   match cs_dir s with DComplete v => v | _ => garbage end.
 
+(* the outcome of a transfer: the copy command succeeded; it FAILED after part of the files (the
+   process lives on, prepareSnapshotForStore returns the error after postFileSync); the process was
+   killed after k steps. The marker is removed only on success. *)
+Inductive fetch_outcome := FOk | FFailed | FCrashed (k : nat).
+Definition fetch_run (v : N) (o : fetch_outcome) (s : cslot) : cslot :=
+  match o with
+  | FOk => wrun s (fetch_steps v)
+  | FFailed => wrun s [WMark; WPartial]
+  | FCrashed k => wrun s (firstn k (fetch_steps v))
+  end.
+(* a variant that clears the marker whenever the transfer is over, failed or not *)
+Definition fetch_run_unmark_always (v : N) (o : fetch_outcome) (s : cslot) : cslot :=
+  match o with
+  | FFailed => wrun s [WMark; WPartial; WUnmark]
+  | _ => fetch_run v o s
+  end.
+(* PrepareSnapshot: nothing to do when the local directory passes for a backup, else a transfer *)
+Definition prepare (opens_partial : bool) (v : N) (o : fetch_outcome) (s : cslot) : cslot :=
+  if backup_ok opens_partial s then s else fetch_run v o s.
+
 (* the data directory during restoreFromPath, with the marker file "restoring" *)
 Inductive ddata := DOld | DMixed | DNew.
 Record rslot := { rs_data : ddata; rs_marked : bool }.
